@@ -29,6 +29,8 @@ SETTINGS = [
     {"REQUIRE_PARTS": ["day", "year"], "PREFER_DAY_OF_MONTH": "last", "PREFER_MONTH_OF_YEAR": "first"},
     {"PARSERS": ["no-spaces-time", "negative-timestamp", "timestamp", "relative-time",
                  "custom-formats", "absolute-time"], "RETURN_TIME_AS_PERIOD": True},
+    {"PARSERS": ["absolute-time", "timestamp"]},
+    {"PARSERS": ["absolute-time", "custom-formats", "relative-time"], "PREFER_DATES_FROM": "future"},
     {"NORMALIZE": False, "SKIP_TOKENS": ["t", "at", "the"], "DEFAULT_LANGUAGES": ["en", "fr"],
      "CACHE_SIZE_LIMIT": 1, "LANGUAGE_DETECTION_CONFIDENCE_THRESHOLD": 0.1},
 ]
